@@ -132,6 +132,12 @@ def gen_cases(rng, tier, count=None):
                  "algo": "%s|%s" % (algo, algoB), "part": "%s|%s" % (A["part"], B["part"]), "box": A["box"],
                  "n": A["n"], "T": A["T"], "reward": A["reward"], "np_seed": A["np_seed"], "params": {},
                  "_cost": A["_cost"] + B["_cost"]}
+        if rng.random() < 0.5:
+            # the arity of a K-ary partition is bound with functools.partial on the library's own class instead of a
+            # subclass per K: the instances of one run (and of the two interleaved runs) then share one class object
+            for sub in (c, c.get("Y"), c.get("A"), c.get("B")):
+                if isinstance(sub, dict):
+                    sub["part_binding"] = "partial"
         out.append(c)
     return out
 
@@ -279,7 +285,7 @@ def run_interleave(case, viol, obs):
         np.random.seed(cases[X]["np_seed"])
         states[X] = np.random.get_state()
     for X in order:
-        P = C.plain_part_class(cases[X]["part"])
+        P = C.plain_part_class(cases[X]["part"], cases[X].get("part_binding"))
         algo[X] = call(X, lambda: C.build(cases[X], P))
     nsw = 0
     last = None
